@@ -24,7 +24,8 @@ P1305 = (1 << 130) - 5
 
 def configs(tier):
     if tier == "quick":
-        return [("native", "", "plain"), ("native", "avx512f,avx2", "plain"), ("native", vcore.ALL_OFF, "plain"), ("noti", "", "plain"),
+        # BLAKE2b has four compression backends (AVX2, SSE4.1, SSSE3, reference): one mask for each
+        return [("native", "", "plain"), ("native", "avx512f,avx2", "plain"), ("native", "avx512f,avx2,avx1,sse41", "plain"), ("native", vcore.ALL_OFF, "plain"), ("noti", "", "plain"),
                 ("native", "", "plain", {"HX_ALIGN": "5"})]     # every buffer 5 bytes past a malloc boundary
     out = []
     for v in vcore.VARIANTS:
